@@ -96,6 +96,15 @@ def fillInit (pts : List Pt) : (Int × Int × Int × Int) × FillSt :=
   let u := updateActive cursor.1 [] edges
   (b, { pending := u.2, active := u.1, cursor := cursor })
 
+/-- The cursor movement inside `FillIter::next`: one pixel to the right, or to the start of the
+next scanline (with `update_active_edges`) when the right bound is reached. -/
+def fillNext (b : Int × Int × Int × Int) (st : FillSt) : FillSt :=
+  if st.cursor.2 + 1 = b.2.2.2 then
+    { pending := (updateActive (st.cursor.1 + 1) st.active st.pending).2,
+      active := (updateActive (st.cursor.1 + 1) st.active st.pending).1,
+      cursor := (st.cursor.1 + 1, b.2.1) }
+  else { st with cursor := (st.cursor.1, st.cursor.2 + 1) }
+
 /-- `FillIter::next` iterated to exhaustion: yielded pixels, and whether the iterator finished
 within the fuel (one unit per iteration of the `while` loop). -/
 def runFill (b : Int × Int × Int × Int) : Nat → FillSt → List Pt × Bool
@@ -103,15 +112,9 @@ def runFill (b : Int × Int × Int × Int) : Nat → FillSt → List Pt × Bool
   | n + 1, st =>
     if st.active.isEmpty then ([], true)
     else
-      let cur := st.cursor
-      let inter := st.active.countP fun e => decide (e.x ≤ cur.2)
-      let st' : FillSt :=
-        if cur.2 + 1 = b.2.2.2 then
-          let u := updateActive (cur.1 + 1) st.active st.pending
-          { pending := u.2, active := u.1, cursor := (cur.1 + 1, b.2.1) }
-        else { st with cursor := (cur.1, cur.2 + 1) }
-      let r := runFill b n st'
-      (if inter % 2 = 1 then cur :: r.1 else r.1, r.2)
+      let inter := st.active.countP fun e => decide (e.x ≤ st.cursor.2)
+      let r := runFill b n (fillNext b st)
+      (if inter % 2 = 1 then st.cursor :: r.1 else r.1, r.2)
 
 /-- `polygon.fill_iter().collect()`; fuel = area of the bounding rect + 1. -/
 def fillIter (pts : List Pt) : List Pt × Bool :=
